@@ -109,6 +109,12 @@ var vObs []string
 
 func vObserve(name string, x float64) {
 	vObs = append(vObs, name+" "+strconv.FormatFloat(x, 'g', -1, 64))
+	if x != x || x > 1.7e308 || x < -1.7e308 {
+		// an observed value is NaN or infinite: reported like a failed assertion (used to confirm natively that a
+		// division by zero the solver found reachable shows in the state)
+		vFailures = append(vFailures, "nonfinite:"+name)
+		fmt.Println("VERIF-FAIL", "nonfinite:"+name)
+	}
 }
 
 func vObserveStr(name string, x string) {
